@@ -44,6 +44,9 @@ type Case struct {
 	Replies []Reply `json:"replies"`           // per caller
 	Collide []int   `json:"collide,omitempty"` // callers whose pending request id is reused by a coordinator-originated request
 	Lose    bool    `json:"lose_session,omitempty"`
+	// WriteFails: that many requests meet a failing write on a session that still looks open (the caller
+	// gets the error; nothing of the request may stay behind)
+	WriteFails int `json:"write_fails,omitempty"`
 }
 
 type stub struct{ name string }
@@ -88,6 +91,17 @@ func execute(c Case) *pt.Failure {
 	tc.Sticky(message.MessageTypeBranchRegister, &faketc.Action{Kind: faketc.NoReply})
 	defer tc.Sticky(message.MessageTypeBranchRegister, nil)
 	f0, m0 := sgetty.PendingFuturesForVerif()
+	for i := 0; i < c.WriteFails; i++ {
+		tc.Script(message.MessageTypeBranchRegister, faketc.Action{Kind: faketc.TransportError})
+		t0 := time.Now()
+		_, err := sgetty.GetGettyRemotingClient().SendSyncRequest(message.BranchRegisterRequest{Xid: "127.0.0.1:8091:6999", ResourceId: "write-fails", BranchType: branch.BranchTypeTCC})
+		if err == nil {
+			return pt.Failf("C14/write-failure-not-reported", "the write of request %d failed, SendSyncRequest returned nil", i)
+		}
+		if time.Since(t0) > 5*time.Second {
+			return pt.Failf("C14/write-failure-slow", "the write failed at once, the caller got the error after %v", time.Since(t0))
+		}
+	}
 
 	results := make([]result, c.N)
 	var wg sync.WaitGroup
@@ -236,6 +250,9 @@ func drawCase(t *rapid.T, allowDrop bool) Case {
 	if allowDrop && rapid.IntRange(0, 3).Draw(t, "lose?") == 0 {
 		c.Lose = true
 	}
+	if rapid.IntRange(0, 3).Draw(t, "writeFails") == 0 {
+		c.WriteFails = rapid.IntRange(1, 3).Draw(t, "nWriteFails")
+	}
 	return c
 }
 
@@ -260,7 +277,7 @@ func record(test string, c Case) {
 		drop = drop || r.Drop
 	}
 	labels := []string{fmt.Sprintf("callers:%d", c.N)}
-	for k, v := range map[string]bool{"reordered": reordered, "duplicate": dup, "drop": drop, "id-collision": len(c.Collide) > 0, "session-loss": c.Lose} {
+	for k, v := range map[string]bool{"reordered": reordered, "duplicate": dup, "drop": drop, "id-collision": len(c.Collide) > 0, "session-loss": c.Lose, "write-failure": c.WriteFails > 0} {
 		if v {
 			labels = append(labels, k)
 		}
